@@ -31,10 +31,11 @@ Lemma wrap_window_ok :
   safe_run code VDict wrap_history (init_state code) = false.
 Proof. vm_compute. split; reflexivity. Qed.
 
-(* replies for two units in one segment: the second one is thrown away with the buffer *)
+(* replies for units 1, 2, 1 in one segment: the reply for the foreign unit 2 is skipped (its
+   deferred stays pending); since the framer repair the frame behind it is still delivered *)
 Lemma mixed_unit_dropped :
-  let σ := arun code VDict [Made; Execute; Execute; Segment [(1, 1, 11); (2, 2, 12)]] (init_state code) in
-  a_fired σ = [(1, OCb 1 11)] /\ a_pending σ = [(2, 2)].
+  let σ := arun code VDict [Made; Execute; Execute; Execute; Segment [(1, 1, 11); (2, 2, 12); (1, 3, 13)]] (init_state code) in
+  a_fired σ = [(1, OCb 1 11); (3, OCb 3 13)] /\ a_pending σ = [(2, 2)].
 Proof. vm_compute. split; reflexivity. Qed.
 
 (* the same two replies in two segments are both delivered *)
@@ -53,7 +54,38 @@ Proof. vm_compute. split; reflexivity. Qed.
 Lemma nonvacuous_history :
   let ops := [Made; Execute; Execute; Execute; Reply 3 30; Reply 1 10; Reply 9 90; Reply 1 11; Lost; Execute] in
   let σ := arun code VDict ops (init_state code) in
-  safe_run code VDict ops (init_state code) = true /\
+  plain ops = true /\ safe_run code VDict ops (init_state code) = true /\
   a_fired σ = [(3, OCb 3 30); (1, OCb 1 10); (2, OErr ConnectionExc); (4, OErr ConnectionExc)] /\
   a_pending σ = [] /\ a_lost σ = [].
+Proof. vm_compute. repeat split; reflexivity. Qed.
+
+(* re-entrant user code: an errback that calls execute() while connectionLost is still draining the
+   table.  Because _connected is cleared BEFORE the loop, the re-issued request fails at once ... *)
+Lemma reentrant_errback_ok :
+  let σ := arun code VDict [Made; ExecuteE; Execute; Lost] (init_state code) in
+  a_pending σ = [] /\ a_conn σ = false /\
+  a_fired σ = [(1, OErr ConnectionExc); (3, OErr ConnectionExc); (2, OErr ConnectionExc)].
+Proof. vm_compute. repeat split; reflexivity. Qed.
+
+(* ... whereas with the flag cleared AFTER the loop the re-issued request is filed behind the
+   snapshot being drained and never fires (dict and FIFO variant alike) *)
+Definition code_clear_late : async_code :=
+  {| ac_tid_init := ac_tid_init code; ac_tid_inc := ac_tid_inc code; ac_tid_mask := ac_tid_mask code;
+     ac_init_connected := ac_init_connected code; ac_made_connected := ac_made_connected code;
+     ac_build_guard := ac_build_guard code; ac_build_exn := ac_build_exn code;
+     ac_handle_by_reply_tid := ac_handle_by_reply_tid code; ac_lost_clears := ac_lost_clears code;
+     ac_lost_clear_first := false; ac_lost_loop := ac_lost_loop code; ac_lost_exn := ac_lost_exn code;
+     ac_unit_default := ac_unit_default code |}.
+
+Lemma reentrant_errback_needs_clear_first :
+  (let σ := arun code_clear_late VDict [Made; ExecuteE; Lost] (init_state code_clear_late) in
+   a_pending σ = [(2, 2)] /\ a_conn σ = false /\ a_fired σ = [(1, OErr ConnectionExc)]) /\
+  (let σ := arun code_clear_late VFifo [Made; ExecuteE; Lost] (init_state code_clear_late) in
+   a_pending σ = [(2, 2)] /\ a_conn σ = false /\ a_fired σ = [(1, OErr ConnectionExc)]).
+Proof. vm_compute. repeat split; reflexivity. Qed.
+
+(* a callback that issues the next request: it is filed and answered like any other *)
+Lemma reentrant_callback_ok :
+  let σ := arun code VDict [Made; ExecuteC; Reply 1 10; Reply 2 20] (init_state code) in
+  a_pending σ = [] /\ a_fired σ = [(1, OCb 1 10); (2, OCb 2 20)] /\ a_sent σ = [(1, 1); (2, 2)].
 Proof. vm_compute. repeat split; reflexivity. Qed.
